@@ -361,7 +361,8 @@ class IndexedSet(MutableSet):
         "difference_update(*others) -> discard self.intersection(*others)"
         if self in others:
             self.clear()
-        for val in self.intersection(*others):
+        # drop everything that is in any of the others
+        for val in self.difference(self.difference(*others)):
             self.discard(val)
 
     def symmetric_difference_update(self, other):  # note singular 'other'
